@@ -34,6 +34,11 @@ func main() {
 	case "debugprog":
 		n, _ := strconv.Atoi(os.Args[2])
 		engines.DebugProg(envSeed(), n)
+	case "c04decode":
+		if err := engines.C04DecodeOnly(os.Stdin, os.Stdout); err != nil {
+			fmt.Fprintln(os.Stderr, "c04decode:", err)
+			os.Exit(2)
+		}
 	case "list":
 		for _, id := range sim.EngineIDs() {
 			fmt.Println(id)
